@@ -67,6 +67,10 @@ AskAL(t, v) == /\ t \in Terms
 SetFm(t, n) == /\ t \in Terms /\ n >= 0 /\ fm' = [fm EXCEPT ![t] = n]
                /\ UNCHANGED <<kind, outcome, ncancel, op, prog, grp, child, ended>>
 Frame == UNCHANGED rvars
+(* terminal t stops answering (it dropped off the segment): the ledger does not move - what the
+   group owes at the end does not depend on the terminals' cooperation; a request counts as made
+   when it goes on the wire                                                                    *)
+Silent(t) == t \in Terms /\ UNCHANGED rvars
 Cancel == /\ outcome = "running" /\ ncancel' = ncancel + 1
           /\ UNCHANGED <<kind, outcome, op, fm, prog, grp, child, ended>>
 Done(o) == /\ outcome = "running" /\ o \notin {"none", "running"} /\ outcome' = o
